@@ -309,7 +309,7 @@ def _branch_body(fnode, stmt):
 
 
 CLAIM = {
-    "text": "Decides the structural clauses of posterior resampling: on both branches the returned samples are nested_samples[indices] for the returned indices, on every returning path; the rejection branch normalises by the maximum weight, draws one uniform per nested sample and keeps i iff log_w_i is on the greater side of log U_i; the multinomial branch normalises with logsumexp and calls choice(size=n, p=exp(log_w), replace=True) over all nested samples with n defaulting to int(ESS of the same weights); unknown methods raise. The three Kish-ESS implementations canonicalise to exp(-logsumexp(2(w - logsumexp w))) and are typed shift-invariant (degree 0) by the shift-degree checker. The ESS rule enumerates by family name over the whole package, overrides through the class table included. The importance sampler's wrapper passes the caller's n through or the integer part of the ESS of the very weights it resamples (C16.2).",
+    "text": "Decides the structural clauses of posterior resampling: on both branches the returned samples are nested_samples[indices] for the returned indices, on every returning path; the rejection branch normalises by the maximum weight, draws one uniform per nested sample and keeps i iff log_w_i is on the greater side of log U_i; the multinomial branch normalises with logsumexp and calls choice(size=n, p=exp(log_w), replace=True) over all nested samples with n defaulting to int(ESS of the same weights); unknown methods raise. The three Kish-ESS implementations canonicalise to exp(-logsumexp(2(w - logsumexp w))) and are typed shift-invariant (degree 0) by the shift-degree checker. The ESS rule enumerates by family name over the whole package, overrides through the class table included. The importance sampler's wrapper passes the caller's n through or the integer part of the ESS of the very weights it resamples (C16.2). Indices may be drawn among the samples kept by an isfinite-type mask of the weights and mapped back through flatnonzero(mask); the returned samples are still the caller's array at the returned indices.",
     "note": "Strictness of the rejection comparison is deliberately not an obligation (> and >= agree almost surely). Inclusion probabilities, selection frequencies and the bounds 1 <= ESS <= N are statistical / numeric and are not decided.",
 }
 
